@@ -16,7 +16,7 @@ package twig
 // C12: the escape filter. A value already marked safe for the content type is returned as it is (no double
 // escaping); otherwise, when an escaper is registered for the type, the result is a SafeValue for exactly that
 // type holding the escaper's output on the string form of the value.
-//@   asserts safe: in(e.Escapers, ct) ==> (result == val && sv_safefor(val, ct)) || (istype(result, "stick.safeValue") && in(unbox(result, "stick.safeValue").safeFor, ct))
+//@   asserts! safe: in(e.Escapers, ct) ==> (result == val && sv_safefor(val, ct)) || (istype(result, "stick.safeValue") && in(unbox(result, "stick.safeValue").safeFor, ct))
 //@   at "stick.NewSafeValue(escfn(stick.CoerceString(val)), ct)" registered: ok && escfn != nil
 
 // C12: content type of a template name: txt (not escaped), an extension with a registered escaper, html otherwise
@@ -40,3 +40,5 @@ package twig
 //@ fieldframe twig.autoEscapeVisitor only
 //@ mapframe map[string]Escaper only
 //@ globalframe only twig.init
+// C18: the escape filter outlives Init and is shared by every call: it keeps no state in captured variables
+//@ nocapturewrite twig.(*AutoEscapeExtension).Init$1
